@@ -578,7 +578,7 @@ func c23Run(c *core.Ctx, raw json.RawMessage) {
 	for _, r := range reqs {
 		k := key{r.nodeIdx, r.client, r.id}
 		o := occ[k]
-		what := fmt.Sprintf("req%d (client %d, node %d, %d statements, wait=%v, seq %d, http %d)", r.id, r.client, r.nodeIdx, r.ns, r.wait, r.seq, codeOf(r.resp))
+		what := fmt.Sprintf("req%d (client %d, node %d, %d statements, wait=%v, seq %d, http %d)", r.id, r.client, r.nodeIdx, r.ns, r.wait, r.seq, c23CodeOf(r.resp))
 		if r.direct {
 			continue
 		}
@@ -682,7 +682,7 @@ func c23Run(c *core.Ctx, raw json.RawMessage) {
 	c.Sig(fmt.Sprintf("%d/%d/%d/%d/%s", nAcc, nRej, nDup, nb, strconv.Itoa(len(rows))))
 }
 
-func codeOf(r *hxResp) int {
+func c23CodeOf(r *hxResp) int {
 	if r == nil {
 		return 0
 	}
